@@ -252,6 +252,11 @@ def gen_case(rng, feats):
         if cond:
             checks.append((cond[0], cond[1], before, after))
         before = after
+    if rng.random() < 0.35:
+        # what was rolled back stays rolled back for every later transaction, also once VACUUM has forgotten the aborted ids
+        g.h.simple("V", "AVacuum")
+        after = g.observe()
+        checks.append(("always", 0, before, after))
     rust, coq = g.h.render()
     return Case(rust, coq, "history", dict(g.classes.meta(), checks=checks))
 
@@ -297,7 +302,8 @@ class C03(Spec):
             "(1-4 statements from multi-row INSERT / UPDATE / DELETE / CREATE TABLE / DROP TABLE / SELECT, some failing: duplicate key, "
             "NULL into NOT NULL, type error, arity, unknown table; ended by COMMIT, ROLLBACK or dropping the session object), a failing "
             "autocommit statement, or execute_batch with a failing statement at a random position; after every round every table "
-            "(including tables created or dropped inside sessions) is read in a fresh transaction.  Oracle independent of the model: "
+            "(including tables created or dropped inside sessions) is read in a fresh transaction; a third of the histories end with "
+            "VACUUM and another read of every table.  Oracle independent of the model: "
             "the reads before and after a rolled-back session, a failed statement or a failed batch must be identical.  Every answer is "
             "also compared with RefDB evaluated inside Coq.  distinct = distinct histories; non-trivial = history contains a rollback, "
             "a dropped session or an error")
